@@ -9,6 +9,10 @@ CONSTANTS
   DoScan = TRUE
   TrigonalFixed = TRUE
   BigHkls = {{1001, 10997, 21500}}
+  BlockSize = 0
+  ListMax = 0
+  ListPool = {}
+  ListSizes = {}
   ConcPairs = {}
   CoarseNames = {}
   Stride = 1
